@@ -12,5 +12,5 @@ CONSTANTS
   BadSets <- MCBad
   FlagSets <- MCFlags
 SPECIFICATION ReducedSpec
-INVARIANTS TypeOK EmittedOnce OnlyWithHistory ChildrenFirst AllRequestedEmitted StopEndsIteration EmitsPrefixOfRunOut RanToEndEmitsRunOut CompletedAtEnd VisitedIsEmittedOrSending
+INVARIANTS ProjectionLemma TypeOK EmittedOnce OnlyWithHistory ChildrenFirst AllRequestedEmitted StopEndsIteration EmitsPrefixOfRunOut RanToEndEmitsRunOut CompletedAtEnd VisitedIsEmittedOrSending
 CHECK_DEADLOCK FALSE
